@@ -43,9 +43,15 @@ def canon(x, depth=0, full_objects=False):
     if isinstance(x, numpy.bool_):
         return bool(x)
     if isinstance(x, Vector):
-        return ["V", _hex(x.x), _hex(x.y), _hex(x.z)]
+        try:
+            return ["V", _hex(x.x), _hex(x.y), _hex(x.z)]
+        except TypeError:  # unsampled vector with random coordinates
+            return ["Vlazy"] + [canon(c, depth + 1) for c in (x.x, x.y, x.z)]
     if isinstance(x, Orientation):
-        q = [float(c) for c in x.q]
+        try:
+            q = [float(c) for c in x.q]
+        except TypeError:
+            return ["Olazy"]
         for c in q:
             if abs(c) > 1e-12:
                 if c < 0:
